@@ -1,6 +1,7 @@
 package c17
 
 import (
+	"sort"
 	"strconv"
 
 	"verif/harness/internal/core"
@@ -117,7 +118,7 @@ func randMsgOp(r *core.Rand, isReq bool, id string) string {
 		if framed {
 			fr = "1"
 		}
-		return "reqm " + id + " " + fr + " " + core.HexS(ct) + " " + fault
+		return "reqm " + id + " " + fr + " " + core.HexS(ct) + " " + fault + " " + strconv.Itoa(r.Intn(nReqShapes))
 	}
 	ct := resCtypes[r.Intn(len(resCtypes))]
 	fault := "n"
@@ -127,7 +128,76 @@ func randMsgOp(r *core.Rand, isReq bool, id string) string {
 	case x < 7:
 		fault = "d"
 	}
-	return "resm " + id + " " + core.HexS(ct) + " " + fault
+	return "resm " + id + " " + core.HexS(ct) + " " + fault + " " + strconv.Itoa(r.Intn(nResShapes))
+}
+
+// bulkCases: LARGE logs. n completed + k pending entries with n around each power-of-two
+// threshold (an implementation may change representation there: map growth, batching, index
+// rebuilds), drained by one export-and-reset, then a duplicate request and a response for EVERY
+// entry that stayed (where they sit — first, last, spread, inside — is varied).
+//
+// The Lean heap model represents fields as functions, so replaying a history of N entries costs
+// O(N²) in the driver (0.03 s at 512, 0.12 s at 1024, 2.3 s at 4096): the big sizes get fewer cases.
+type bulkPlan struct {
+	th     int
+	deltas []int
+	ks     []int
+	wheres []string
+}
+
+func bulkCases(r *core.Rand, plans []bulkPlan, emit func([]string)) {
+	for _, pl := range plans {
+		th := pl.th
+		for _, d := range pl.deltas {
+			n := th + d
+			for _, k := range pl.ks {
+				total := n + k
+				for _, where := range pl.wheres {
+					var idx []int
+					switch where {
+					case "tail":
+						for i := total - k; i < total; i++ {
+							idx = append(idx, i)
+						}
+					case "head":
+						for i := 0; i < k; i++ {
+							idx = append(idx, i)
+						}
+					case "spread": // first … last, evenly
+						for j := 0; j < k; j++ {
+							if k == 1 {
+								idx = append(idx, total-1)
+							} else {
+								idx = append(idx, j*(total-1)/(k-1))
+							}
+						}
+					case "inside": // the newest entry is completed, the pending ones are just before it
+						for i := total - 1 - k; i < total-1; i++ {
+							idx = append(idx, i)
+						}
+					case "random":
+						seen := map[int]bool{}
+						for len(idx) < k {
+							i := r.Intn(total)
+							if !seen[i] {
+								seen[i] = true
+								idx = append(idx, i)
+							}
+						}
+						sort.Ints(idx)
+					}
+					arg := ""
+					for j, i := range idx {
+						if j > 0 {
+							arg += ","
+						}
+						arg += strconv.Itoa(i)
+					}
+					emit([]string{"bulk " + strconv.Itoa(total) + " " + arg})
+				}
+			}
+		}
+	}
 }
 
 func randOptOp(r *core.Rand) string {
@@ -278,6 +348,16 @@ func (P) Gen(r *core.Rand, tier string, emit func([]string)) {
 		n := r.Range(4, 14)
 		mode := r.Pick("own", "shared", "reset")
 		emit([]string{"conc " + strconv.FormatUint(r.U64()>>1, 10) + " " + strconv.Itoa(g) + " " + strconv.Itoa(n) + " " + mode})
+	}
+	allD, allK, allW := []int{-1, 0, 1}, []int{1, 2, 3, 17}, []string{"tail", "head", "spread", "inside", "random"}
+	if tier == "thorough" {
+		bulkCases(r, []bulkPlan{{64, allD, allK, allW}, {128, allD, allK, allW}, {256, allD, allK, allW}, {512, allD, allK, allW},
+			{1024, allD, allK, allW}, {2048, allD, []int{1, 2, 17}, allW}, {4096, allD, []int{1, 2}, []string{"tail", "spread", "inside"}},
+			{8192, []int{0}, []int{1}, []string{"tail", "spread"}}}, emit)
+	} else {
+		someK, someW := []int{1, 2, 17}, []string{"tail", "spread", "inside", "random"}
+		bulkCases(r, []bulkPlan{{256, allD, someK, someW}, {512, allD, someK, someW},
+			{1024, allD, []int{1, 2}, []string{"tail", "spread"}}, {4096, []int{0}, []int{1}, []string{"tail"}}}, emit)
 	}
 	// hammering: short bodiless calls back to back (what overlaps is the critical sections)
 	for i := 0; i < nHammer; i++ {
